@@ -23,10 +23,7 @@ def none_arm_blocks(bi, pred):
                     arms = dict(blk.term.arms)
                     none_bb = arms.get(0, blk.term.otherwise if 1 in arms else None)
                     if none_bb is not None:
-                        none_bb = bi._skip_false(none_bb)
-                        for x in bi.cfg.reach:
-                            if bi.cfg.dominates(none_bb, x):
-                                out.add(x)
+                        out |= bi.cfg.edge_dominated(blk.idx, none_bb)
     for bb, t in bi.calls(pred):
         if t.dest is None or not t.dest.is_local() or t.target is None:
             continue
@@ -38,10 +35,7 @@ def none_arm_blocks(bi, pred):
                 arms = dict(nb.term.arms)
                 none_bb = arms.get(0, nb.term.otherwise if 1 in arms else None)
                 if none_bb is not None:
-                    none_bb = bi._skip_false(none_bb)
-                    for x in bi.cfg.reach:
-                        if bi.cfg.dominates(none_bb, x):
-                            out.add(x)
+                    out |= bi.cfg.edge_dominated(t.target, none_bb)
     return out
 
 
@@ -137,7 +131,8 @@ def r11_2(prog, out):
     for vname in R.topic_actor.variants:
         for tid in R.variant_targets(R.topic_actor, vname):
             effs = prog.effects(tid)
-            if not any(e.touches(tmap) and e.kind in L.REMOVE_KINDS for e in effs):
+            tdel = A.cell("TopicActor", "deleted")
+            if not any((e.touches(tmap) and e.kind in L.REMOVE_KINDS) or (e.kind == "write" and e.touches(tdel)) for e in effs):
                 continue
             found = True
             key = "topic-delete:%s" % prog.short(tid)
@@ -152,7 +147,7 @@ def r11_2(prog, out):
             else:
                 out.holds(key, prog.loc(tid), "clears its own subscription set, leaves the manager map entry, touches no subscription")
     if not found:
-        raise CheckBroken("topic delete handler (removing from the topic map) not found")
+        out.undecided("topic-delete", "", "no topic request handler marks the topic deleted or removes it from the manager map")
 
 
 @rule("C11", "R11.3", "creating a topic never (re-)attaches subscriptions", floor=1)
